@@ -14,18 +14,22 @@ Variable c : tcfg.
 Hypothesis Hc : cfg_ok c.
 Variables (d : db) (s : list ans).
 Hypothesis Hi : TaskInv c d.
+Hypothesis Hnf : Forall unforced s.       (* dependency readings are not forced *)
 Hypothesis Ht : trace_sat reply_ok (step c s d).
 
+Lemma unforced_fd : forall x, unforced (AReply (RDep x)) -> False.
+Proof. intros x H. exact (H x eq_refl). Qed.
+
 Lemma dep_step_all : forall g, pv c d = render c g -> wf_ghost c g ->
-  Forall (fun e => Inv c Tr Tr2 Tr1 TrG g (outside c d) d (snd e)) (r_trace (step c s d))
-  /\ Inv c Tr Tr2 Tr1 TrG g (outside c d) d (r_db (step c s d))
+  Forall (fun e => Inv c False Tr Tr2 Tr1 TrG g (outside c d) d (snd e)) (r_trace (step c s d))
+  /\ Inv c False Tr Tr2 Tr1 TrG g (outside c d) d (r_db (step c s d))
   /\ forall o, r_out (step c s d) = Fin o ->
-               Qstep c reply_ok Tr Tr2 Tr1 TrG g d o (r_db (step c s d)) (r_cs (step c s d)).
+               Qstep c reply_ok False Tr Tr2 Tr1 TrG g d o (r_db (step c s d)) (r_cs (step c s d)).
 Proof.
   intros g Hpv Hw.
-  exact (step_all c reply_ok Tr Tr2 Tr1 TrG Hc (fun _ _ H => H) (fun _ _ _ => forall_true _)
-                  (fun _ _ _ => I) (fun _ _ _ _ => I) (fun _ _ _ _ _ _ _ _ _ _ => I)
-                  g d s Hpv (W_true c g Hw) Ht).
+  exact (step_all c reply_ok unforced False Tr Tr2 Tr1 TrG Hc (fun _ _ H => H) (fun _ _ _ => forall_true _)
+                  (fun _ _ _ => I) (fun _ _ _ _ => I) unforced_fd (fun _ _ _ _ _ _ _ _ _ _ => I)
+                  g d s Hpv (W_true c g Hw) Hnf Ht).
 Qed.
 
 (* whenever the step commits a new batch, every referenced integration had a
@@ -39,16 +43,16 @@ Lemma dep_bounded : t_deps c <> [] -> r_out (step c s d) = Fin OConverged ->
           exists n h, newest (t_src c) R (d_curs d) = Some (n, h) /\ dn <= n).
 Proof.
   intros Hd Ho. destruct Hi as (g & Hpv & Hw).
-  destruct (step_converged c reply_ok Tr Tr2 Tr1 TrG Hc (fun _ _ H => H) (fun _ _ _ => forall_true _)
-              (fun _ _ _ => I) (fun _ _ _ _ => I) (fun _ _ _ _ _ _ _ _ _ _ => I)
-              g d s Hpv (W_true c g Hw) Ht Ho)
+  destruct (step_converged c reply_ok unforced False Tr Tr2 Tr1 TrG Hc (fun _ _ H => H) (fun _ _ _ => forall_true _)
+              (fun _ _ _ => I) (fun _ _ _ _ => I) unforced_fd (fun _ _ _ _ _ _ _ _ _ _ => I)
+              g d s Hpv (W_true c g Hw) Hnf Ht Ho)
     as (p & q & bs & ln & lh & Eg & _ & Hp & _ & _ & _ & Hne & _ & Hdep).
   destruct bs as [|b0 bs']; [congruence|].
   inversion Hdep as [|? ? Hb0 _]; subst.
-  destruct Hb0 as [E|(dn & dh & Eq & _)]; [congruence|].
+  destruct Hb0 as [[]|[E|(dn & dh & Eq & _)]]; [congruence|].
   exists p, q, (b0 :: bs'), dn, dh. split; [exact Hpv|]. split; [exact Hp|]. split; [discriminate|].
   split; [exact Eq|]. split.
-  - intros x Hx. rewrite Forall_forall in Hdep. destruct (Hdep x Hx) as [E|(dn' & dh' & Eq' & L)]; [congruence|].
+  - intros x Hx. rewrite Forall_forall in Hdep. destruct (Hdep x Hx) as [[]|[E|(dn' & dh' & Eq' & L)]]; [congruence|].
     rewrite Eq in Eq'. inversion Eq'; subst. exact L.
   - intros R HR. apply (dep_query_full (t_src c) (t_deps c) (d_curs d) dn dh Eq R HR).
 Qed.
@@ -61,8 +65,8 @@ Lemma dep_unstarted : forall R, In R (t_deps c) -> newest (t_src c) R (d_curs d)
 Proof.
   intros R HR Hn. destruct Hi as (g & Hpv & Hw).
   destruct (dep_step_all g Hpv Hw) as (A & B & C).
-  assert (Hns : ~ dstarted c d).
-  { intros [E|(dn & dh & Eq)]; [rewrite E in HR; destruct HR|].
+  assert (Hns : ~ dstarted c False d).
+  { intros [[]|[E|(dn & dh & Eq)]]; [rewrite E in HR; destruct HR|].
     destruct (dep_query_full _ _ _ _ _ Eq R HR) as (n & h & E & _). congruence. }
   split; [|split].
   - eapply Forall_impl; [|exact A]. cbn. intros e (_ & _ & [E|E]); [exact E|contradiction].
